@@ -20,6 +20,7 @@ TWO32 = 2 ** 32
 
 LIB_AXIOMS = {
     'struct.pack': "struct.pack('<nI', v...) raises struct.error unless every 0 <= v < 2^32, else returns the concatenation of le32(v)",
+    'struct.unpack_from': "struct.unpack_from('<nI', b, off) raises struct.error unless len(b) - off >= 4n (off >= 0), else returns the n words of b[off:off+4n]",
     'struct.unpack': "struct.unpack('<nI', b) raises struct.error unless len(b) == 4n, else returns the n words unle32(b[4i:4i+4])",
     'struct.calcsize': "struct.calcsize('<nI') == 4n",
     'sum': 'builtin sum over bytes/bytearray is the sum of the byte values (bsum)',
@@ -396,6 +397,30 @@ class World(object):
                           expr='lock order: %s (level %d) is never acquired while %s (level %d) is held' % (name, self.LOCK_LEVEL[name], other, lvl))
         ex.assume(z3.Not(G.fields[fld].term))
         G.fields[fld] = VBool(True)
+        self.interfere(ex, name)
+
+    def interfere(self, ex, name):
+        """Rely step at a lock acquisition (contract key `interference`): other threads of control may have changed the locations
+        the lock protects since this one last held it -- havoc them; what the contract declares stable (under its condition,
+        evaluated in the pre-acquisition state) keeps its value.  Applied only when deciding the properties it is declared for."""
+        itf = getattr(ex.contract, 'interference', {}).get(name)
+        if not itf or ex.mode == 'spec':
+            return
+        if ex.only_props is not None and not (set(itf.get('props', [])) & ex.only_props):
+            return
+        scope = ex.inv_scope(getattr(ex, 'cur_loop_idx', None), None)
+        before = []
+        for cond, expr in itf.get('stable', []):
+            c = truth(ex.eval_clause_value(cond, scope))
+            v = ex.eval_clause_value(expr, scope)
+            before.append((c, v, expr))
+        roots = dict(scope)
+        for path in itf.get('havoc', []):
+            ex.havoc_locs(ex.resolve_path(path, roots), label='itf')
+        scope = ex.inv_scope(getattr(ex, 'cur_loop_idx', None), None)
+        for c, v0, expr in before:
+            v1 = ex.eval_clause_value(expr, scope)
+            ex.assume(z3.Implies(c, truth(v1) == truth(v0)))
 
     def lock_release(self, ex, lock):
         ex.G.fields['held_' + lock.name] = VBool(False)
@@ -1344,6 +1369,33 @@ def bi_struct_unpack(w, ex, args, kwargs, node):
     return VTuple(out)
 
 
+def bi_struct_unpack_from(w, ex, args, kwargs, node):
+    """struct.unpack_from(fmt, buffer, offset=0): needs len(buffer) - offset >= size (offset >= 0), reads buffer[offset:offset+size]."""
+    w.use('struct.unpack_from')
+    fmt, data = args[0], args[1]
+    offset = args[2] if len(args) > 2 else kwargs.get('offset', VInt(0))
+    size, kinds = _parse_fmt(fmt)
+    if isinstance(data, VOpt):
+        data = ex.nonnull(data, 'struct.unpack_from')
+    if not isinstance(data, VBytes):
+        raise RaiseSig(VExc('TypeError'))
+    off0 = to_int(offset)
+    if ex.mode != 'spec':
+        # negative offsets count from the end in CPython; only the non-negative case is axiomatised
+        if not ex.branch(off0 >= 0):
+            raise Unsupported('struct.unpack_from with a negative offset')
+        if not ex.branch(z3.Length(data.term) - off0 >= size):
+            raise RaiseSig(VExc('struct.error'))
+    out = []
+    off = 0
+    for k in kinds:
+        n = 4 if k == 'I' else k[1]
+        piece = ex.slice_term(data.term, off0 + off, off0 + off + n)
+        out.append(VInt(SF.unle32(piece)) if k == 'I' else VBytes(piece, False))
+        off += n
+    return VTuple(out)
+
+
 def bi_struct_calcsize(w, ex, args, kwargs, node):
     w.use('struct.calcsize')
     size, kinds = _parse_fmt(args[0])
@@ -1501,7 +1553,7 @@ def bi_noop(w, ex, args, kwargs, node):
 BUILTINS = {
     'len': bi_len, 'min': _minmax(True), 'max': _minmax(False), 'int': bi_int, 'bool': bi_bool, 'bytes': bi_bytes,
     'bytearray': bi_bytearray, 'isinstance': bi_isinstance, 'sum': bi_sum, 'hasattr': bi_hasattr, 'ord': bi_ord, 'str': bi_str,
-    'struct.pack': bi_struct_pack, 'struct.unpack': bi_struct_unpack, 'struct.calcsize': bi_struct_calcsize,
+    'struct.pack': bi_struct_pack, 'struct.unpack': bi_struct_unpack, 'struct.unpack_from': bi_struct_unpack_from, 'struct.calcsize': bi_struct_calcsize,
     'time.time': bi_time_time, 'contextmanager': bi_contextmanager, 'socket.gethostname': bi_gethostname, 'os.fstat': bi_fstat, 'namedtuple': bi_namedtuple, 'open': bi_open, 'async_timeout.timeout': bi_async_timeout, 'platform.system': bi_platform_system,
     'aiofiles.open': bi_open, 'os.path.isdir': bi_isdir, 'os.listdir': bi_listdir, 'os.path.join': bi_pathjoin,
 }
